@@ -931,7 +931,11 @@ Proof.
   pose proof (round_len_pos every r) as Hp. unfold rate_limit_ms in Hp.
   set (now' := (now + round_len every r)%Z).
   assert (Hn : (last <= now')%Z) by (unfold now'; lia).
-  destruct r as [w|w|].
+  destruct r as [w|w|w [|]|].
+  - constructor; [lia|]. apply IH. lia.
+  - cbn [andb]. destruct (every <=? now' - last)%Z eqn:E.
+    + constructor; [lia|]. apply IH. lia.
+    + constructor; [lia|]. apply IH. exact Hn.
   - constructor; [lia|]. apply IH. lia.
   - cbn [andb]. destruct (every <=? now' - last)%Z eqn:E.
     + constructor; [lia|]. apply IH. lia.
